@@ -28,7 +28,10 @@ def run(v, prop, tier, seed):
     mine = vlib.ReplayOutcome()
     for idx, sig, detail in out.failures:
         op = sig.split("/")[1] if "/" in sig else ""
-        if OWNER.get(op) == prop:
+        owner = OWNER.get(op)
+        if sig.endswith("/logs") or sig.endswith("/log-entries"):
+            owner = "C10"   # "every ref update that does happen is recorded in that ref's log with the true old and new values"
+        if owner == prop:
             mine.failures.append((idx, sig, detail))
     if prop == "C01":
         mine.crashes, mine.timeouts = out.crashes, out.timeouts
